@@ -26,7 +26,7 @@ ASSUMPTIONS = ["history independence is judged on canonicalised values (order of
                "pwseqdist is the recorded stand-in (see C14)"]
 EXHAUSTIVE = {"quick": ["every specification appears in some history, and once directly after every plotting specification's default call"],
               "thorough": ["every ordered pair of specifications adjacent at least once"]}
-REQUIRE = {"calls_checked_against_fresh": 266, "argument_fingerprints_compared": 300, "defaults_fingerprints_compared": 300,
+REQUIRE = {"calls_with_same_objects_edited_in_place": 47, "calls_checked_against_fresh": 266, "argument_fingerprints_compared": 300, "defaults_fingerprints_compared": 300,
            "raising_calls_checked": 11, "injected_faults": 10, "seeded_calls_checked": 20, "figure_calls_checked": 15,
            "histories": 15, "specs_covered": 50}
 SHARDS = {"quick": 8, "thorough": 16}
